@@ -11,19 +11,33 @@
 (*                                                                          *)
 (* Buffer ids are symmetric: the spec allocates the lowest free slot, the   *)
 (* replay adapter binds whatever id the code hands out to that slot.        *)
-EXTENDS Naturals, Sequences, FiniteSets, TLC, Json
+EXTENDS Naturals, Sequences, FiniteSets, TLC, Json, SequencesExt
 
 CONSTANTS N,          \* advertised number of buffers (max_buffers)
           FrameLen,   \* [frame id -> length in bytes]
           Ports,      \* physical ports of the switch
           MissLens,   \* values SET_CONFIG may install
           MaxLens,    \* max_len values of output:CONTROLLER flows
+          ListsPO,    \* action lists a PACKET_OUT may carry (sequences over Prims)
+          ListsFM,    \* action lists of flows / FLOW_MODs (no output:TABLE)
           D           \* export depth
 
 Frames == DOMAIN FrameLen
-Free == [f |-> "free", p |-> 0]
-Slot(f, p) == [f |-> f, p |-> p]
-Slots == {Free} \cup {Slot(f, p) : f \in Frames, p \in Ports}
+\* What a frame on the wire is, as far as this property can tell frames apart: which test frame (f), whether
+\* its destination address has been rewritten by a set_dl_dst action (z), and its class k, which decides what
+\* the flow table does with it: 0 = no entry matches, 1 = matched only by the entry an RxL step installs for
+\* itself, ml \in MaxLens = matched by the standing entry "output:CONTROLLER(max_len = ml)".
+Classes == {0, 1} \cup MaxLens
+Content(f, z, k) == [f |-> f, z |-> z, k |-> k]
+Contents == [f : Frames, z : BOOLEAN, k : Classes]
+Tag(c) == IF c.z THEN "Z" \o c.f ELSE c.f
+CLen(c) == FrameLen[c.f]          \* rewriting an address does not change the length
+Free == [c |-> Content("free", FALSE, 0), p |-> 0]
+Slot(c, p) == [c |-> c, p |-> p]
+Slots == {Free} \cup {Slot(c, p) : c \in Contents, p \in Ports}
+\* primitive actions of an action list
+Prims == {"out2", "flood", "inport", "all", "ctl", "table", "rw"}
+CtlLen == 96                      \* max_len of an output:CONTROLLER action inside a list
 
 \* what a buffer user asks the switch to do with the stored frame
 Acts == {"none", "out2", "flood", "inport", "all"}
@@ -49,6 +63,8 @@ Emit(act, p) ==
     [] act = "flood"  -> Ports \ {p}
     [] act = "all"    -> Ports \ {p}
     [] act = "inport" -> {p}
+\* an emission as an observer on the ports sees it: port, which frame, its class
+Em(q, c) == <<q, Tag(c), c.k>>
 
 NoObs == [a |-> "Init", args |-> [x |-> 0], exp |-> [x |-> 0]]
 
@@ -63,6 +79,7 @@ Log(a, args, exp) ==
 
 \* A frame is handed to the controller.
 ToController(f, p, reason, maxLen) ==
+  LET c == Content(f, FALSE, IF reason = "miss" THEN 0 ELSE maxLen) IN
   IF FreeSlots = {}
   THEN /\ UNCHANGED pool
        /\ Log("ToController",
@@ -70,7 +87,7 @@ ToController(f, p, reason, maxLen) ==
               [buf |-> 0, total |-> FrameLen[f], dataLen |-> FrameLen[f],
                inport |-> p, reason |-> reason])
   ELSE LET s == MinOf(FreeSlots) IN
-       /\ pool' = [pool EXCEPT ![s] = Slot(f, p)]
+       /\ pool' = [pool EXCEPT ![s] = Slot(c, p)]
        /\ Log("ToController",
               [f |-> f, p |-> p, reason |-> reason, maxLen |-> maxLen],
               [buf |-> s, total |-> FrameLen[f],
@@ -88,7 +105,7 @@ Use(kind, s, act) ==
   /\ IF s \in 1..N /\ pool[s] # Free
      THEN /\ pool' = [pool EXCEPT ![s] = Free]
           /\ Log(kind, [buf |-> s, act |-> act],
-                 [emitted |-> {<<q, pool[s].f>> : q \in Emit(act, pool[s].p)}])
+                 [emitted |-> {Em(q, pool[s].c) : q \in Emit(act, pool[s].p)}])
      ELSE /\ UNCHANGED pool
           /\ Log(kind, [buf |-> s, act |-> act], [emitted |-> {}])
 
@@ -96,21 +113,21 @@ Use(kind, s, act) ==
 PacketOutData(f, p, act) ==
   /\ UNCHANGED <<pool, missLen>>
   /\ Log("PacketOutData", [f |-> f, p |-> p, act |-> act],
-         [emitted |-> {<<q, f>> : q \in Emit(act, p)}])
+         [emitted |-> {Em(q, Content(f, FALSE, 0)) : q \in Emit(act, p)}])
 
 \* PACKET_OUT carrying its own data with actions [output:TABLE, set_dl_dst(Z), output:2]: the table lookup
 \* misses, so the frame goes to the controller (and is buffered) AS IT IS AT THAT POINT; the later rewrite
 \* and output act on the packet being processed, not on the stored one.
 MissViaTable(f, p) ==
   /\ UNCHANGED missLen
-  /\ LET out2 == IF p = 2 THEN {} ELSE {<<2, "Z" \o f>>} IN
+  /\ LET out2 == IF p = 2 THEN {} ELSE {Em(2, Content(f, TRUE, 0))} IN
      IF FreeSlots = {}
      THEN /\ UNCHANGED pool
           /\ Log("MissViaTable", [f |-> f, p |-> p],
                  [buf |-> 0, total |-> FrameLen[f], dataLen |-> FrameLen[f], inport |-> p,
                   reason |-> "miss", emitted |-> out2])
      ELSE LET s == MinOf(FreeSlots) IN
-          /\ pool' = [pool EXCEPT ![s] = Slot(f, p)]
+          /\ pool' = [pool EXCEPT ![s] = Slot(Content(f, FALSE, 0), p)]
           /\ Log("MissViaTable", [f |-> f, p |-> p],
                  [buf |-> s, total |-> FrameLen[f], dataLen |-> Lesser(FrameLen[f], missLen), inport |-> p,
                   reason |-> "miss", emitted |-> out2])
@@ -119,13 +136,77 @@ SetConfig(ml) ==
   /\ missLen' = ml /\ UNCHANGED pool
   /\ Log("SetConfig", [missLen |-> ml], [x |-> 0])
 
-Next == \/ \E f \in Frames, p \in Ports : Miss(f, p)
-        \/ \E f \in Frames, p \in Ports, ml \in MaxLens : CtrlAction(f, p, ml)
-        \/ \E k \in {"PacketOut", "FlowMod"}, s \in (1..N) \cup BogusIds,
-              a \in Acts : Use(k, s, a)
-        \/ \E f \in Frames, p \in Ports, a \in Acts : PacketOutData(f, p, a)
-        \/ \E f \in Frames, p \in Ports : MissViaTable(f, p)
-        \/ \E ml \in MissLens : SetConfig(ml)
+----------------------------------------------------------------------------
+(* Action LISTS.  The switch applies the actions of a list in order to the   *)
+(* packet as modified so far.  An output:CONTROLLER, or an output:TABLE that *)
+(* leads to the controller, hands over - and stores - the packet AS IT IS AT *)
+(* THAT POINT of the list; the rest of the list goes on with the packet      *)
+(* being processed.  So one step may emit several frames, send several       *)
+(* packet-ins and take several slots.                                        *)
+Pin(b, c, dl, p, r) == [buf |-> b, total |-> CLen(c), dataLen |-> dl, inport |-> p, reason |-> r,
+                        tag |-> Tag(c), k |-> c.k]
+St0(c, pl) == [c |-> c, pool |-> pl, em |-> <<>>, pins |-> <<>>]
+ToCtl(st, p, reason, ml) ==
+  LET free == {s \in 1..N : st.pool[s] = Free} IN
+  IF free = {}
+  THEN [st EXCEPT !.pins = Append(@, Pin(0, st.c, CLen(st.c), p, reason))]
+  ELSE LET s == MinOf(free) IN
+       [st EXCEPT !.pool = [@ EXCEPT ![s] = Slot(st.c, p)],
+                  !.pins = Append(@, Pin(s, st.c, Lesser(CLen(st.c), ml), p, reason))]
+StepL(st, a, p, ml) ==
+  CASE a = "rw"    -> [st EXCEPT !.c = [@ EXCEPT !.z = TRUE]]
+    [] a = "ctl"   -> ToCtl(st, p, "action", CtlLen)
+    [] a = "table" -> IF st.c.k \in MaxLens THEN ToCtl(st, p, "action", st.c.k)   \* the standing entry
+                                            ELSE ToCtl(st, p, "miss", ml)
+    [] OTHER       -> [st EXCEPT !.em = @ \o SetToSeq({Em(q, st.c) : q \in Emit(a, p)})]
+RECURSIVE RunL(_, _, _, _)
+RunL(acts, st, p, ml) ==
+  IF acts = <<>> THEN st ELSE RunL(Tail(acts), StepL(st, Head(acts), p, ml), p, ml)
+\* emissions as a bag: {<<port, tag, class, how many>>}
+Bag(em) == {<<em[i][1], em[i][2], em[i][3], Cardinality({j \in DOMAIN em : em[j] = em[i]})>> : i \in DOMAIN em}
+NBuf(acts) == Cardinality({i \in DOMAIN acts : acts[i] \in {"ctl", "table"}})
+
+\* PACKET_OUT / FLOW_MOD naming buffer s, with an action list.  The slot is given back when the list is done.
+\* Whether a packet which the list itself sends to the controller may already take the slot being used is
+\* not something the property settles, so the step is left out where that would make a visible difference
+\* (fewer free slots than the list needs).
+UseL(kind, s, acts) ==
+  /\ UNCHANGED missLen
+  /\ IF s \in 1..N /\ pool[s] # Free
+     THEN /\ NBuf(acts) <= Cardinality(FreeSlots)
+          /\ LET st == RunL(acts, St0(pool[s].c, pool), pool[s].p, missLen) IN
+             /\ pool' = [st.pool EXCEPT ![s] = Free]
+             /\ Log(kind \o "L", [buf |-> s, acts |-> acts], [emitted |-> Bag(st.em), pins |-> st.pins])
+     ELSE /\ UNCHANGED pool
+          /\ Log(kind \o "L", [buf |-> s, acts |-> acts], [emitted |-> {}, pins |-> <<>>])
+
+\* PACKET_OUT carrying its own data, with an action list
+PacketOutDataL(f, p, acts) ==
+  /\ UNCHANGED missLen
+  /\ LET st == RunL(acts, St0(Content(f, FALSE, 0), pool), p, missLen) IN
+     /\ pool' = st.pool
+     /\ Log("PacketOutDataL", [f |-> f, p |-> p, acts |-> acts], [emitted |-> Bag(st.em), pins |-> st.pins])
+
+\* a frame arrives on port p and matches a flow entry whose actions are the list
+RxL(f, p, acts) ==
+  /\ UNCHANGED missLen
+  /\ LET st == RunL(acts, St0(Content(f, FALSE, 1), pool), p, missLen) IN
+     /\ pool' = st.pool
+     /\ Log("RxL", [f |-> f, p |-> p, acts |-> acts], [emitted |-> Bag(st.em), pins |-> st.pins])
+
+NextL == \/ \E s \in (1..N) \cup BogusIds, a \in ListsPO : UseL("PacketOut", s, a)
+         \/ \E s \in (1..N) \cup BogusIds, a \in ListsFM : UseL("FlowMod", s, a)
+         \/ \E f \in Frames, p \in Ports, a \in ListsPO : PacketOutDataL(f, p, a)
+         \/ \E f \in Frames, p \in Ports, a \in ListsFM : RxL(f, p, a)
+
+Next1 == \/ \E f \in Frames, p \in Ports : Miss(f, p)
+         \/ \E f \in Frames, p \in Ports, ml \in MaxLens : CtrlAction(f, p, ml)
+         \/ \E k \in {"PacketOut", "FlowMod"}, s \in (1..N) \cup BogusIds,
+               a \in Acts : Use(k, s, a)
+         \/ \E f \in Frames, p \in Ports, a \in Acts : PacketOutData(f, p, a)
+         \/ \E f \in Frames, p \in Ports : MissViaTable(f, p)
+         \/ \E ml \in MissLens : SetConfig(ml)
+Next == Next1 \/ NextL
 
 Spec == Init /\ [][Next]_vars
 
@@ -134,16 +215,28 @@ Spec == Init /\ [][Next]_vars
 
 TypeOK  == pool \in [1..N -> Slots] /\ missLen \in MissLens \cup {128}
 Bounded == Cardinality(Occupied) <= N
+ListKinds == {"PacketOutL", "FlowModL", "PacketOutDataL", "RxL"}
 
 \* a packet-in always carries the true total length; the whole frame when not
 \* buffered, at most maxLen bytes when buffered
 PacketInOK ==
-  last.a \in {"ToController", "MissViaTable"} =>
-    /\ last.exp.total = FrameLen[last.args.f]
-    /\ (last.exp.buf = 0 => last.exp.dataLen = last.exp.total)
-    /\ (last.exp.buf # 0 => /\ (last.a = "ToController" => last.exp.dataLen <= last.args.maxLen)
-                            /\ last.exp.dataLen <= last.exp.total
-                            /\ pool[last.exp.buf] = Slot(last.args.f, last.args.p))
+  /\ last.a \in {"ToController", "MissViaTable"} =>
+       /\ last.exp.total = FrameLen[last.args.f]
+       /\ (last.exp.buf = 0 => last.exp.dataLen = last.exp.total)
+       /\ (last.exp.buf # 0 => /\ (last.a = "ToController" => last.exp.dataLen <= last.args.maxLen)
+                               /\ last.exp.dataLen <= last.exp.total
+                               /\ pool[last.exp.buf].c.f = last.args.f /\ ~pool[last.exp.buf].c.z
+                               /\ pool[last.exp.buf].p = last.args.p)
+  /\ last.a \in ListKinds => \A i \in DOMAIN last.exp.pins : LET pi == last.exp.pins[i] IN
+       /\ \E f \in Frames : pi.total = FrameLen[f] /\ pi.tag \in {f, "Z" \o f}
+       /\ (pi.buf = 0 => pi.dataLen = pi.total)
+       /\ (pi.buf # 0 => /\ pi.dataLen <= pi.total
+                         /\ (pi.reason = "miss" => pi.dataLen <= missLen)
+                         \* what the id stands for is the packet that was announced, as it was announced
+                         /\ pool[pi.buf] # Free /\ Tag(pool[pi.buf].c) = pi.tag /\ pool[pi.buf].p = pi.inport)
+  \* ids announced by one step are distinct
+  /\ last.a \in ListKinds => \A i, j \in DOMAIN last.exp.pins :
+       (i # j /\ last.exp.pins[i].buf # 0) => last.exp.pins[i].buf # last.exp.pins[j].buf
 
 \* an id is handed out only for a slot that was free: an outstanding id keeps
 \* identifying the same stored packet until it is used
@@ -158,15 +251,23 @@ NoBufferIffFull ==
 \* using an id emits iff it was outstanding, emits exactly the stored frame,
 \* and frees exactly that slot
 UsedExactlyOnce ==
-  [][(last'.a \in {"PacketOut", "FlowMod"}) =>
+  [][/\ (last'.a \in {"PacketOut", "FlowMod"}) =>
        LET s == last'.args.buf IN
        IF s \in 1..N /\ pool[s] # Free
        THEN /\ pool'[s] = Free
             /\ \A t \in (1..N) \ {s} : pool'[t] = pool[t]
-            /\ \A e \in last'.exp.emitted : e[2] = pool[s].f /\ e[1] \in Ports
+            /\ \A e \in last'.exp.emitted : e[2] = Tag(pool[s].c) /\ e[1] \in Ports
             /\ (last'.args.act \in {"flood", "all"} =>
                   {e[1] : e \in last'.exp.emitted} = Ports \ {pool[s].p})
-       ELSE /\ last'.exp.emitted = {} /\ pool' = pool]_vars
+       ELSE /\ last'.exp.emitted = {} /\ pool' = pool
+     /\ (last'.a \in {"PacketOutL", "FlowModL"}) =>
+       LET s == last'.args.buf IN
+       IF s \in 1..N /\ pool[s] # Free
+       THEN /\ pool'[s] = Free
+            /\ \A t \in (1..N) \ {s} : pool[t] # Free => pool'[t] = pool[t]
+            /\ \A e \in last'.exp.emitted : e[2] \in {pool[s].c.f, "Z" \o pool[s].c.f} /\ e[1] \in Ports
+            /\ \A i \in DOMAIN last'.exp.pins : last'.exp.pins[i].buf # s
+       ELSE /\ last'.exp.emitted = {} /\ last'.exp.pins = <<>> /\ pool' = pool]_vars
 
 \* ---- export for the replay harness
 Bound   == Len(hist) <= D
